@@ -22,7 +22,7 @@ ASSUMPTIONS = [
 XCELLS = [None, 1, 2, 2.5, NAN(1), 'a', 'ab']          # NAN(1): one NaN object per *cell* (fresh ids per row below)
 VALS = [None, 1, 2, 2.5, 'a', 'ab', 3]                # 3 matches nothing
 REGEX = ['a', '^a$', 'zzz', 'b$']
-FUNCS = ['x_is_none', 'y_even', 'true', 'false', 'x_str', 'xy']
+FUNCS = ['x_is_none', 'y_even', 'true', 'false', 'x_str', 'xy', 'y_mod2', 'x_itself', 'y_or_none', 'x_len']
 
 
 def _funcs():
@@ -33,6 +33,11 @@ def _funcs():
         'false': (lambda y: False, lambda r: False),
         'x_str': (lambda x, **kw: isinstance(x, str), lambda r: isinstance(r['x'], str)),
         'xy': (lambda x, y: y in (0, 2) and x is not None, lambda r: r['y'] in (0, 2) and r['x'] is not None),
+        # predicates that answer with truthy / falsy values rather than bools (ints, the cell itself, None, a string length)
+        'y_mod2': (lambda y: y % 2, lambda r: bool(r['y'] % 2)),
+        'x_itself': (lambda x: x, lambda r: bool(r['x'])),
+        'y_or_none': (lambda y: y or None, lambda r: bool(r['y'])),
+        'x_len': (lambda x: len(x) - 1 if isinstance(x, str) else 0, lambda r: isinstance(r['x'], str) and len(r['x']) > 1),
     }
 
 
